@@ -112,6 +112,84 @@ theorem relay_sound_block (L : Nat) (hL : 0 < L) (hlen : ∀ x, (H x).length = L
           · exact absurd hc hno
       · right; exact hc
 
+/-- **Soundness (Block, BlockByHash), with the collisions located.** As `relay_sound_block`; every
+alternative is a collision between two different strings hashed in this run — nodes of the answer's
+header tree vs nodes of the verified header's tree; the answer's transactions and the nodes of its
+data tree vs the honest block's; likewise for the last-commit signatures and the evidence. -/
+theorem relay_sound_block_traced (L : Nat) (hL : 0 < L) (hlen : ∀ x, (H x).length = L)
+    (lc lc' : LC) (hok : ChainOK lc) (req : BlockReq) (res : ResultBlock)
+    (hacc : verifyBlock H lc req res = (.ok, lc')) :
+    ∃ b t, res.block = some b ∧ lc.at? b.header.height = some t ∧
+      res.blockID.hash = t.header.hash H ∧
+      (b.header.fields = t.header.fields ∨
+        CollisionIn H (rootPre H b.header.fields.length b.header.fields)
+          (rootPre H t.header.fields.length t.header.fields)) ∧
+      (b.header.fields = t.header.fields → ∀ hb, HonestBlock H t hb →
+        (b.txs = hb.txs ∨ CollisionIn H (b.txs ++ rootPre H (b.txs.map H).length (b.txs.map H))
+            (hb.txs ++ rootPre H (hb.txs.map H).length (hb.txs.map H))) ∧
+        (b.lastCommitSigs = hb.lastCommitSigs ∨
+          CollisionIn H (rootPre H b.lastCommitSigs.length b.lastCommitSigs)
+            (rootPre H hb.lastCommitSigs.length hb.lastCommitSigs)) ∧
+        (b.evidence = hb.evidence ∨
+          CollisionIn H (rootPre H b.evidence.length b.evidence) (rootPre H hb.evidence.length hb.evidence))) := by
+  unfold verifyBlock at hacc
+  split at hacc; · simp at hacc
+  split at hacc; · simp at hacc
+  rename_i b hb
+  split at hacc; · simp at hacc
+  rename_i hvb
+  split at hacc; · simp at hacc
+  rename_i hid
+  split at hacc; · simp at hacc
+  split at hacc
+  · simp at hacc
+  · rename_i t lc1 hupd
+    split at hacc; · simp at hacc
+    rename_i hhash
+    have hhash' : b.header.hash H = t.header.hash H := by simpa using hhash
+    have hid' : res.blockID.hash = b.header.hash H := by simpa using hid
+    obtain ⟨_, _, hat⟩ := updateTo_ok lc lc1 _ t hupd
+    have hat' := hat _ rfl
+    have htv : t.header.validatorsHash ≠ [] := hok.vh _ _ hat'
+    have hvb' : b.validateBasic H = true := by simpa using hvb
+    simp only [Block.validateBasic, Bool.and_eq_true, decide_eq_true_eq] at hvb'
+    obtain ⟨⟨⟨⟨⟨⟨_, _⟩, _⟩, hlch⟩, hdh⟩, _⟩, heh⟩ := hvb'
+    have hroots : root H b.header.fields = root H t.header.fields := by
+      unfold Header.hash at hhash'
+      by_cases hbv : b.header.validatorsHash = []
+      · simp only [hbv, htv, if_true, if_false] at hhash'
+        have := rootF_len H L hlen t.header.fields.length t.header.fields
+        unfold root at hhash'
+        rw [← hhash'] at this
+        simp at this; omega
+      · simpa only [hbv, htv, if_false] using hhash'
+    refine ⟨b, t, hb, hat', by rw [hid', hhash'], root_inj_traced2 H L hlen _ _ hroots, ?_⟩
+    intro hf hbk hh
+    have hf' := hf
+    simp only [Header.fields, List.cons.injEq] at hf'
+    obtain ⟨_, _, _, _, _, e6, e7, _, _, _, _, _, e13, _⟩ := hf'
+    have ltx : (txsHash H b.txs).length = L := rootF_len H L hlen _ _
+    have ltx' : (txsHash H hbk.txs).length = L := rootF_len H L hlen _ _
+    have lc1' : (commitHash H b.lastCommitSigs).length = L := rootF_len H L hlen _ _
+    have lc2' : (commitHash H hbk.lastCommitSigs).length = L := rootF_len H L hlen _ _
+    have le1 : (evidenceHash H b.evidence).length = L := rootF_len H L hlen _ _
+    have le2 : (evidenceHash H hbk.evidence).length = L := rootF_len H L hlen _ _
+    rw [hdh, hh.data] at e7
+    rw [hlch, hh.commit] at e6
+    rw [heh, hh.evidence] at e13
+    have d := fBytes_cancel L hL _ _ _ ltx ltx' e7
+    have c := fBytes_cancel L hL _ _ _ lc1' lc2' e6
+    have e := fBytes_cancel L hL _ _ _ le1 le2 e13
+    unfold txsHash at d
+    unfold commitHash at c
+    unfold evidenceHash at e
+    refine ⟨?_, root_inj_traced2 H L hlen _ _ c, root_inj_traced2 H L hlen _ _ e⟩
+    rcases root_inj_traced2 H L hlen _ _ d with hm | hcol
+    · rcases map_hash_inj_traced2 H _ _ hm with ht | hcol
+      · left; exact ht
+      · right; exact hcol.mono H (fun x hx => List.mem_append.mpr (Or.inl hx)) (fun x hx => List.mem_append.mpr (Or.inl hx))
+    · right; exact hcol.mono H (fun x hx => List.mem_append.mpr (Or.inr hx)) (fun x hx => List.mem_append.mpr (Or.inr hx))
+
 /-- … and since the 14 hashed byte strings determine the header (for wire-sized fields), the relayed
 header IS the verified header. -/
 theorem relay_sound_block_header (L : Nat) (hL : 0 < L) (hlen : ∀ x, (H x).length = L)
@@ -210,6 +288,72 @@ theorem relay_sound_tx (L : Nat) (hL : 0 < L) (hlen : ∀ x, (H x).length = L)
         · right; exact ⟨⟨_, _, hx, heq⟩⟩
       · right; exact hc
     · cases hval
+
+/-- **Soundness (Tx), with the collision located.** As `relay_sound_tx`, but the alternative to "the
+transaction is in the block" is a collision between two DIFFERENT strings that were actually hashed in
+this run: on the answer's side the transaction, the leaf preimage `0x00‖H(tx)` and the inner nodes
+of the claimed path; on the chain's side the block's transactions and the nodes of its data tree.
+(For a fixed-length `H` "some collision exists" holds by counting; a collision inside these
+linearly many listed inputs does not.) -/
+theorem relay_sound_tx_traced (L : Nat) (hL : 0 < L) (hlen : ∀ x, (H x).length = L)
+    (lc lc' : LC) (reqHash : Bytes) (res : ResultTx)
+    (hacc : verifyTx H lc reqHash res = (.ok, lc')) :
+    ∃ t, lc.at? res.height = some t ∧ res.proof.rootHash = t.header.dataHash ∧
+      res.tx = res.proof.data ∧ H res.tx = reqHash ∧
+      (∀ txs, t.header.dataHash = txsHash H txs →
+        res.tx ∈ txs ∨
+          CollisionIn H
+            (res.tx :: (0 :: H res.tx) ::
+              pathPre H res.proof.proof.total.toNat res.proof.proof.index.toNat res.proof.proof.total.toNat
+                (leafHash H (H res.tx)) res.proof.proof.aunts)
+            (txs ++ rootPre H (txs.map H).length (txs.map H))) := by
+  obtain ⟨t, hat, _, hroot, htx, _, hh, _⟩ := relay_sound_tx H L hL hlen lc lc' reqHash res hacc
+  refine ⟨t, hat, hroot, htx, hh, ?_⟩
+  -- the proof verified against the trusted data hash
+  have hval : validate H t.header.dataHash res.proof = .ok () := by
+    unfold verifyTx at hacc
+    split at hacc; · simp at hacc
+    split at hacc
+    · simp at hacc
+    · rename_i t' lc1 hupd
+      obtain ⟨_, _, hat'⟩ := updateTo_ok lc lc1 _ t' hupd
+      have : t' = t := by
+        have := hat' _ rfl
+        rw [hat] at this
+        exact (Option.some.inj this).symm
+      subst this
+      split at hacc
+      all_goals try (simp at hacc; done)
+      rename_i u hv
+      cases u; exact hv
+  intro txs htxs
+  unfold TxProof.validate at hval
+  split at hval; · cases hval
+  split at hval; · cases hval
+  split at hval; · cases hval
+  split at hval
+  · rename_i u2 hver
+    rw [hroot, htxs] at hver
+    unfold txsHash at hver
+    have hver' : verify H (root H (txs.map H)) (H res.proof.data) res.proof.proof = .ok () := by rw [hver]
+    rw [← htx] at hver'
+    rcases verify_inclusion_any_traced H L hL hlen _ _ _ hver' with hm | hcol
+    · rw [List.mem_map] at hm
+      obtain ⟨tx, hmem, heq⟩ := hm
+      by_cases hx : res.tx = tx
+      · left; rw [hx]; exact hmem
+      · right; exact ⟨res.tx, tx, by simp, by simp [hmem], hx, heq.symm⟩
+    · right
+      refine hcol.mono H ?_ ?_
+      · intro x hx
+        simp only [List.mem_cons] at hx ⊢
+        rcases hx with hx | hx
+        · exact Or.inr (Or.inl hx)
+        · exact Or.inr (Or.inr hx)
+      · intro x hx
+        simp only [List.mem_append]
+        exact Or.inr hx
+  · cases hval
 
 /-- **Completeness (Tx with proof).** The answer an honest node builds (`Txs.Proof(i)`, the bytes, their
 hash, any index label and result) for a block whose header the providers have is relayed. -/
@@ -593,7 +737,7 @@ theorem verifyValue_sound (L : Nat) (hL : 0 < L) (hL64 : L < 2 ^ 64) (hlen : ∀
   obtain ⟨sn, hsn, heq⟩ := hm
   obtain ⟨hsz, hkz⟩ := hwf sn hsn
   obtain ⟨hsne, hkne⟩ := hnem sn hsn
-  -- `on` carries a key: which one, we learn from the key path
+  -- `on` carries a key, and it is the only key left
   have honk : on.key ≠ [] ∧ K1 = [on.key] := by
     rcases hkn with ⟨he, hK⟩ | ⟨hne', hl, hd⟩
     · -- keyless last operator: its leaf would be a store with an empty name
@@ -604,7 +748,8 @@ theorem verifyValue_sound (L : Nat) (hL : 0 < L) (hL64 : L < 2 ^ 64) (hlen : ∀
     · refine ⟨hne', ?_⟩
       obtain ⟨ys, rfl⟩ := List.getLast?_eq_some_iff.mp hl
       simp at hd
-      rw [← hd]; rfl
+      subst hd
+      rfl
   obtain ⟨honne, hK1⟩ := honk
   subst hK1
   -- pre is not empty, peel its last operator
@@ -619,7 +764,7 @@ theorem verifyValue_sound (L : Nat) (hL : 0 < L) (hL64 : L < 2 ^ 64) (hlen : ∀
   obtain ⟨K2, a2⟩ := p2
   simp only [hp2, Option.bind_some] at hp
   obtain ⟨hrm, hkm⟩ := runOps_single H om K2 a2 [on.key] a1 hp
-  -- keys are consumed from the end: K2 is a prefix of [s', k']
+  -- keys are consumed from the end: what is left is a prefix of the key path
   have hsuf : ∀ (xs : List ProofOp) (keys : List Bytes) (arg : Bytes) (keys' : List Bytes) (out : Bytes),
       runOps H xs keys arg = some (keys', out) → ∃ c, keys = keys' ++ c := by
     intro xs
@@ -641,152 +786,109 @@ theorem verifyValue_sound (L : Nat) (hL : 0 < L) (hL64 : L < 2 ^ 64) (hlen : ∀
         · exact ⟨c, by rw [← e, hc]⟩
         · obtain ⟨ys, rfl⟩ := List.getLast?_eq_some_iff.mp hl
           simp at e
-          exact ⟨c ++ [o.key], by rw [← e, hc]; simp⟩
+          exact ⟨c ++ [o.key], by subst e; rw [hc]; simp⟩
   obtain ⟨c2, hc2⟩ := hsuf pre2 [s', k'] v K2 a2 hp2
-  have hs'eq : sn.1 = s' ∧ H (storeRoot H sn.2) = H a1 := by
-    have hlenk : on.key.length < 2 ^ 64 := by
-      -- on.key is s' or k'
-      rcases hkm with ⟨_, hK⟩ | ⟨_, _, hd⟩
-      · rw [← hK] at hc2
-        cases c2 with
-        | nil => simp at hc2
-        | cons a b =>
-          have := congrArg List.length hc2; simp at this
-          have hb : b = [] := List.length_eq_zero_iff.mp (by omega)
-          subst hb
-          simp at hc2; rw [← hc2.1]; exact hsl
-      · obtain ⟨ys, hys⟩ : ∃ ys, K2 = ys := ⟨K2, rfl⟩
-        have : K2.dropLast.length = 1 := by rw [← hd]; simp
-        have hK2len : K2.length = 2 := by rw [List.length_dropLast] at this; omega
-        have hc2len : c2 = [] := by
-          have := congrArg List.length hc2; simp at this
-          exact List.length_eq_zero_iff.mp (by omega)
-        subst hc2len
-        simp at hc2
-        rw [← hc2] at hd
-        simp at hd
-        rw [← hd]; exact hsl
-    exact kvBytes_inj H L hL64 hlen _ _ _ _ hsz hlenk heq
-  -- which of the two shapes for `om`
-  rcases hkm with ⟨hmk, hK⟩ | ⟨hmne, hml, hmd⟩
-  · -- om keyless: K2 = [on.key], one key left for two levels: on.key would have to be both
-    exfalso
-    rw [← hK] at hc2
-    cases c2 with
-    | nil => simp at hc2
-    | cons a b =>
-      have := congrArg List.length hc2; simp at this
-      have hb : b = [] := List.length_eq_zero_iff.mp (by omega)
-      subst hb
-      simp at hc2
-      -- on.key = s', consumed key a = k'; a1 = storeRoot; om's leaf has an empty key in the store
-      have e2 := hs'eq.2
-      by_cases hx : storeRoot H sn.2 = a1
-      · rcases runOp_inclusion H L hL hlen om a2 a1 (storeLeaves H sn.2) hrm hx.symm with hm1 | hc
-        · simp only [storeLeaves, List.mem_map] at hm1
-          obtain ⟨kv, hkv, heq1⟩ := hm1
-          have hl0 : om.key.length < 2 ^ 64 := by rw [hmk]; simp
-          obtain ⟨e3, _⟩ := kvBytes_inj H L hL64 hlen _ _ _ _ (hkz kv hkv) hl0 heq1
-          exact hkne kv hkv (by rw [e3, hmk])
-        · exact hno hc
-      · exact hno ⟨⟨_, _, hx, e2⟩⟩
-  · -- om keyed: K2 = [on.key-prefix.., om.key], so K2 = [s', k'], on.key = s', om.key = k'
-    have hK2 : K2 = [on.key, om.key] := by
-      obtain ⟨ys, rfl⟩ := List.getLast?_eq_some_iff.mp hml
+  have hons : on.key = s' := by
+    rcases hkm with ⟨_, hK⟩ | ⟨_, hml, hmd⟩
+    · rw [← hK] at hc2; simp at hc2; exact hc2.1.symm
+    · obtain ⟨ys, rfl⟩ := List.getLast?_eq_some_iff.mp hml
       simp at hmd
-      rw [← hmd]; rfl
+      subst hmd
+      simp at hc2
+      exact hc2.1.symm
+  have hs'eq : sn.1 = on.key ∧ H (storeRoot H sn.2) = H a1 :=
+    kvBytes_inj H L hL64 hlen _ _ _ _ hsz (by rw [hons]; exact hsl) heq
+  have hx : storeRoot H sn.2 = a1 := by
+    by_cases hx : storeRoot H sn.2 = a1
+    · exact hx
+    · exact absurd ⟨⟨_, _, hx, hs'eq.2⟩⟩ hno
+  have hm1 := (runOp_inclusion H L hL hlen om a2 a1 (storeLeaves H sn.2) hrm hx.symm).resolve_right hno
+  simp only [storeLeaves, List.mem_map] at hm1
+  obtain ⟨kv, hkv, heq1⟩ := hm1
+  -- `om` carries a key as well (an empty key is in no store)
+  rcases hkm with ⟨hmk, _⟩ | ⟨hmne, hml, hmd⟩
+  · exfalso
+    have hl0 : om.key.length < 2 ^ 64 := by rw [hmk]; simp
+    obtain ⟨e3, _⟩ := kvBytes_inj H L hL64 hlen _ _ _ _ (hkz kv hkv) hl0 heq1
+    exact hkne kv hkv (by rw [e3, hmk])
+  have hK2 : K2 = [on.key, om.key] := by
+    obtain ⟨ys, rfl⟩ := List.getLast?_eq_some_iff.mp hml
+    simp at hmd
+    subst hmd
+    rfl
+  have ek : om.key = k' := by
     rw [hK2] at hc2
-    have hc2nil : c2 = [] := by
-      have := congrArg List.length hc2; simp at this
-      exact List.length_eq_zero_iff.mp (by omega)
-    subst hc2nil
-    simp at hc2
-    obtain ⟨es, ek⟩ := hc2
-    have hx : storeRoot H sn.2 = a1 := by
-      by_cases hx : storeRoot H sn.2 = a1
-      · exact hx
-      · exact absurd ⟨⟨_, _, hx, hs'eq.2⟩⟩ hno
-    have hm1 := (runOp_inclusion H L hL hlen om a2 a1 (storeLeaves H sn.2) hrm hx.symm).resolve_right hno
-    simp only [storeLeaves, List.mem_map] at hm1
-    obtain ⟨kv, hkv, heq1⟩ := hm1
-    obtain ⟨e3, e4⟩ := kvBytes_inj H L hL64 hlen _ _ _ _ (hkz kv hkv) (by rw [← ek]; exact hkl) heq1
-    have hsn' : sn = (s', sn.2) := by rw [← hs'eq.1]
-    refine ⟨sn.2, by rw [← hsn']; exact hsn, ?_⟩
-    have hy : kv.2 = a2 := by
-      by_cases hy : kv.2 = a2
-      · exact hy
-      · exact absurd ⟨⟨_, _, hy, e4⟩⟩ hno
-    -- the operators before `om` are keyless (they consumed nothing); none ⇒ a2 = v
-    cases pre2 with
-    | nil =>
+    cases c2 with
+    | nil => simp at hc2; exact hc2.2.symm
+    | cons a b => simp at hc2
+  obtain ⟨e3, e4⟩ := kvBytes_inj H L hL64 hlen _ _ _ _ (hkz kv hkv) (by rw [ek]; exact hkl) heq1
+  have hy : kv.2 = a2 := by
+    by_cases hy : kv.2 = a2
+    · exact hy
+    · exact absurd ⟨⟨_, _, hy, e4⟩⟩ hno
+  have hsn' : sn = (s', sn.2) := Prod.ext (by simp [hs'eq.1, hons]) rfl
+  refine ⟨sn.2, by rw [← hsn']; exact hsn, ?_⟩
+  -- the operators before `om` consumed no key: none ⇒ a2 = v, some ⇒ keyless operators
+  cases pre2 with
+  | nil =>
+    have hva : a2 = v := by
       simp [runOps] at hp2
-      left
-      have : kv = (k', v) := by rw [ek, ← e3, ← hp2.2, ← hy]
-      rw [← this]; exact hkv
-    | cons o1 rest1 =>
-      right
-      have hl2 : a2.length = L := by
-        -- output of the last operator of a non-empty list
-        rcases List.eq_nil_or_concat (o1 :: rest1) with h0 | ⟨q, ol, hq⟩
-        · cases h0
-        · rw [List.concat_eq_append] at hq
-          rw [hq, runOps_append] at hp2
-          cases h5 : runOps H q [s', k'] v with
-          | none => simp [h5] at hp2
-          | some p5 =>
-            simp only [h5, Option.bind_some] at hp2
-            exact runOp_len H L hlen ol _ _ (runOps_single H ol _ _ _ _ hp2).1
-      -- some operator of the prefix is keyless: the first one, else it would have consumed a key
-      have hkeyless : ∃ o ∈ (o1 :: rest1) ++ [om] ++ [on], o.key = [] := by
-        by_cases h1 : o1.key = []
-        · exact ⟨o1, by simp, h1⟩
-        · exfalso
-          have := runOps_keyed_length H [o1] [s', k'] v
-          -- o1 keyed consumes a key, but nothing was consumed by the whole prefix
-          have happ := runOps_append H [o1] rest1 [s', k'] v
-          simp only [List.singleton_append] at happ
-          rw [happ] at hp2
-          cases h6 : runOps H [o1] [s', k'] v with
-          | none => simp [h6] at hp2
-          | some p6 =>
-            obtain ⟨k6, o6⟩ := p6
-            simp only [h6, Option.bind_some] at hp2
-            obtain ⟨_, hk6⟩ := runOps_single H o1 _ _ _ _ h6
-            rcases hk6 with ⟨he, _⟩ | ⟨_, _, hd6⟩
-            · exact h1 he
-            · simp at hd6
-              obtain ⟨c6, hc6⟩ := hsuf rest1 k6 o6 K2 a2 hp2
-              rw [hd6, hK2] at hc6
-              have := congrArg List.length hc6; simp at this; omega
-      refine ⟨kv.2, ?_, by rw [hy]; exact hl2, hkeyless⟩
-      have : kv = (k', kv.2) := by rw [ek, ← e3]
-      rw [← this]; exact hkv
+      first | exact hp2.2.symm | exact hp2.2
+    left
+    have : kv = (k', v) := Prod.ext (by simp [e3, ek]) (by simp [hy, hva])
+    rw [← this]; exact hkv
+  | cons o1 rest1 =>
+    right
+    have hl2 : a2.length = L := by
+      rcases List.eq_nil_or_concat (o1 :: rest1) with h0 | ⟨q, ol, hq⟩
+      · cases h0
+      · rw [List.concat_eq_append] at hq
+        rw [hq, runOps_append] at hp2
+        cases h5 : runOps H q [s', k'] v with
+        | none => simp [h5] at hp2
+        | some p5 =>
+          simp only [h5, Option.bind_some] at hp2
+          exact runOp_len H L hlen ol _ _ (runOps_single H ol _ _ _ _ hp2).1
+    have hkeyless : ∃ o ∈ (o1 :: rest1) ++ [om] ++ [on], o.key = [] := by
+      by_cases h1 : o1.key = []
+      · exact ⟨o1, by simp, h1⟩
+      · exfalso
+        have happ := runOps_append H [o1] rest1 [s', k'] v
+        simp only [List.singleton_append] at happ
+        rw [happ] at hp2
+        cases h6 : runOps H [o1] [s', k'] v with
+        | none => simp [h6] at hp2
+        | some p6 =>
+          obtain ⟨k6, o6⟩ := p6
+          simp only [h6, Option.bind_some] at hp2
+          obtain ⟨_, hk6⟩ := runOps_single H o1 _ _ _ _ h6
+          rcases hk6 with ⟨he, _⟩ | ⟨_, _, hd6⟩
+          · exact h1 he
+          · obtain ⟨c6, hc6⟩ := hsuf rest1 k6 o6 K2 a2 hp2
+            rw [hd6, hK2] at hc6
+            have := congrArg List.length hc6
+            simp at this
+            all_goals omega
+    refine ⟨kv.2, ?_, by rw [hy]; exact hl2, hkeyless⟩
+    have : kv = (k', kv.2) := Prod.ext (by simp [e3, ek]) rfl
+    rw [← this]; exact hkv
 
-/-- **Soundness (ABCIQuery), partial: answers carrying exactly two proof operators** (the shape
-`DefaultMerkleKeyPathFn` is made for: value-in-store, store-in-app). A relayed answer has code 0, a
-value, names a height whose successor the providers have, and — against any application state whose
-`AppHash` that successor header carries — the store named in the path contains exactly the returned
-(key, value), where path and key are read through the key-path round trip; or a collision is
-exhibited. What is missing for the full statement (any number of operators): an operator with an
-EMPTY key consumes no key-path element, so a lying node may prepend keyless operators; the chain of
-inclusions then ends at "the honest value equals the root computed by a keyless operator". With the
-repaired `ValueOp.Run` that root is never nil (before the repair a nil root passed for an EMPTY honest
-value: replayed, fixed), but it can still be any leaf/inner hash, so the full statement would need
-"no stored value is such a hash" — an assumption about the application's data, not about `H`. -/
-theorem relay_sound_abci_partial (L : Nat) (hL : 0 < L) (hL64 : L < 2 ^ 64) (hlen : ∀ x, (H x).length = L)
-    (lc lc' : LC) (store : Option Bytes) (r : ABCIResp) (htwo : r.ops.length = 2)
+/-- what an accepted answer went through in `ABCIQueryWithOptions` -/
+theorem verifyABCI_ok_inv (lc lc' : LC) (store : Option Bytes) (r : ABCIResp)
     (hacc : verifyABCI H lc store r = (.ok, lc')) :
-    r.code = 0 ∧ ∃ t v st s' k', lc.at? (r.height + 1) = some t ∧ lc'.chain = lc.chain ∧
+    r.code = 0 ∧ r.key ≠ [] ∧ r.ops ≠ [] ∧ 0 < r.height ∧
+    ∃ (t : LightBlock) (v st s' k' : Bytes), lc.at? (r.height + 1) = some t ∧ lc'.chain = lc.chain ∧
       r.value = some v ∧ store = some st ∧ keyRoundTrip st = some s' ∧ keyRoundTrip r.key = some k' ∧
-      (∀ stores, t.header.appHash = appHashOf H stores → StoresWF stores →
-        s'.length < 2 ^ 64 → k'.length < 2 ^ 64 →
-        (∃ kvs, (s', kvs) ∈ stores ∧ (k', v) ∈ kvs) ∨ Nonempty (Collision H)) := by
+      verifyValue H r.ops t.header.appHash [s', k'] v = true := by
   unfold verifyABCI at hacc
   split at hacc; · simp at hacc
   rename_i hcode
   split at hacc; · simp at hacc
+  rename_i hkey
   split at hacc; · simp at hacc
+  rename_i hops
   split at hacc; · simp at hacc
+  rename_i hh
   split at hacc
   · simp at hacc
   · rename_i t lc1 hupd
@@ -807,112 +909,57 @@ theorem relay_sound_abci_partial (L : Nat) (hL : 0 < L) (hL64 : L < 2 ^ 64) (hle
     by_cases hver : verifyValue H r.ops t.header.appHash [s', k'] v = true
     case neg => simp [hver] at hacc
     case pos =>
-            have hlc : lc' = lc1 := by simp [hver] at hacc; exact hacc.symm
-            refine ⟨by simpa using hcode, t, v, st, s', k', hat _ rfl, by rw [hlc]; exact hchain, rfl, rfl, hs', rfl, ?_⟩
-            intro stores happ hwf hsl hkl
-            by_cases hno : Nonempty (Collision H)
-            · right; exact hno
-            left
-            -- exactly two operators
-            match hops : r.ops, htwo with
-            | [o1, o2], _ =>
-              rw [hops] at hver
-              simp only [verifyValue, Bool.and_eq_true] at hver
-              obtain ⟨_, hrun⟩ := hver
-              -- unfold the two steps of the loop
-              simp only [runOps] at hrun
-              -- first operator
-              by_cases h1 : o1.key = []
-              · -- consumes no key: the path cannot be used up by one remaining operator
-                simp only [h1, ne_eq, not_true_eq_false, if_false] at hrun
-                cases hr1 : runOp H o1 v with
-                | none => simp [hr1] at hrun
-                | some out1 =>
-                  simp only [hr1] at hrun
-                  by_cases h2 : o2.key = []
-                  · simp only [h2, ne_eq, not_true_eq_false, if_false] at hrun
-                    cases hr2 : runOp H o2 out1 with
-                    | none => simp [hr2] at hrun
-                    | some out2 => simp [hr2] at hrun
-                  · simp only [h2, ne_eq, not_false_eq_true, if_true, List.getLast?_cons_cons, List.getLast?_singleton] at hrun
-                    by_cases h3 : k' = o2.key
-                    · simp only [h3, ne_eq, not_true_eq_false, if_false] at hrun
-                      cases hr2 : runOp H o2 out1 with
-                      | none => simp [hr2] at hrun
-                      | some out2 => simp [hr2, List.dropLast] at hrun
-                    · simp [h3] at hrun
-              · simp only [h1, ne_eq, not_false_eq_true, if_true, List.getLast?_cons_cons, List.getLast?_singleton] at hrun
-                by_cases h3 : k' = o1.key
-                · simp only [h3, ne_eq, not_true_eq_false, if_false] at hrun
-                  cases hr1 : runOp H o1 v with
-                  | none => simp [hr1] at hrun
-                  | some out1 =>
-                    simp only [hr1, List.dropLast] at hrun
-                    by_cases h2 : o2.key = []
-                    · simp only [h2, ne_eq, not_true_eq_false, if_false] at hrun
-                      cases hr2 : runOp H o2 out1 with
-                      | none => simp [hr2] at hrun
-                      | some out2 => simp [hr2] at hrun
-                    · simp only [h2, ne_eq, not_false_eq_true, if_true, List.getLast?_singleton] at hrun
-                      by_cases h4 : s' = o2.key
-                      · simp only [h4, ne_eq, not_true_eq_false, if_false] at hrun
-                        cases hr2 : runOp H o2 out1 with
-                        | none => simp [hr2] at hrun
-                        | some out2 =>
-                          simp only [hr2, List.dropLast, Bool.and_eq_true, decide_eq_true_eq] at hrun
-                          have hroot2 : out2 = root H (appLeaves H stores) := by
-                            have := hrun.1
-                            rw [← this, happ]; rfl
-                          -- the store leaf is in the application tree
-                          rcases runOp_inclusion H L hL hlen o2 out1 out2 _ hr2 hroot2 with hm | hc
-                          · simp only [appLeaves, List.mem_map] at hm
-                            obtain ⟨sn, hsn, heq⟩ := hm
-                            obtain ⟨hsz, hkz⟩ := hwf sn hsn
-                            obtain ⟨e1, e2⟩ := kvBytes_inj H L hL64 hlen _ _ _ _ hsz (by rw [← h4]; exact hsl) heq
-                            by_cases hx : storeRoot H sn.2 = out1
-                            · -- the value leaf is in that store's tree
-                              rcases runOp_inclusion H L hL hlen o1 v out1 (storeLeaves H sn.2) hr1 hx.symm with hm1 | hc
-                              · simp only [storeLeaves, List.mem_map] at hm1
-                                obtain ⟨kv, hkv, heq1⟩ := hm1
-                                obtain ⟨e3, e4⟩ := kvBytes_inj H L hL64 hlen _ _ _ _ (hkz kv hkv) (by rw [← h3]; exact hkl) heq1
-                                by_cases hy : kv.2 = v
-                                · refine ⟨sn.2, ?_, ?_⟩
-                                  · have : sn = (s', sn.2) := by rw [h4, ← e1]
-                                    rw [← this]; exact hsn
-                                  · have : kv = (k', v) := by
-                                      rw [h3, ← e3, ← hy]
-                                    rw [← this]; exact hkv
-                                · exact absurd ⟨⟨_, _, hy, e4⟩⟩ hno
-                              · exact absurd hc hno
-                            · exact absurd ⟨⟨_, _, hx, e2⟩⟩ hno
-                          · exact absurd hc hno
-                      · simp [h4] at hrun
-                · simp [h3] at hrun
+      have hlc : lc' = lc1 := by simp [hver] at hacc; exact hacc.symm
+      have hops' : r.ops ≠ [] := by
+        intro e; exact hops (Or.inr e)
+      exact ⟨by simpa using hcode, hkey, hops', by omega, t, v, st, s', k', hat _ rfl,
+        by rw [hlc]; exact hchain, rfl, rfl, hs', rfl, hver⟩
 
-/-- **Soundness (ABCIQuery), partial: answers all of whose proof operators carry a key** — the same
-conclusion as `relay_sound_abci_partial` under the hypothesis that excludes exactly the keyless
-operators discussed there (such an answer has two operators). -/
-theorem relay_sound_abci_keyed_partial (L : Nat) (hL : 0 < L) (hL64 : L < 2 ^ 64) (hlen : ∀ x, (H x).length = L)
-    (lc lc' : LC) (store : Option Bytes) (r : ABCIResp) (hkeyed : ∀ o ∈ r.ops, o.key ≠ [])
+/-- **Soundness (ABCIQuery), any number of proof operators.** A relayed answer has code 0, a value, a
+non-empty key, names a height whose successor the providers have, and — against any application
+state (named stores of key/value pairs, names and keys non-empty) whose `AppHash` that successor
+header carries — the store named in the path EXISTS and EITHER holds exactly the returned
+(key, value) (path and key read through the key-path round trip), OR the answer contains a keyless
+operator and the store holds under that key a value that has the length of a hash (the keyless
+operators' computed root was passed off as that value: `abci_keyless_operator` finding), or a
+collision is exhibited. Nothing else can happen, for any number and arrangement of operators. -/
+theorem relay_sound_abci (L : Nat) (hL : 0 < L) (hL64 : L < 2 ^ 64) (hlen : ∀ x, (H x).length = L)
+    (lc lc' : LC) (store : Option Bytes) (r : ABCIResp)
     (hacc : verifyABCI H lc store r = (.ok, lc')) :
     r.code = 0 ∧ ∃ t v st s' k', lc.at? (r.height + 1) = some t ∧ lc'.chain = lc.chain ∧
       r.value = some v ∧ store = some st ∧ keyRoundTrip st = some s' ∧ keyRoundTrip r.key = some k' ∧
-      (∀ stores, t.header.appHash = appHashOf H stores → StoresWF stores →
+      (∀ stores, t.header.appHash = appHashOf H stores → StoresWF stores → StoresNE stores →
         s'.length < 2 ^ 64 → k'.length < 2 ^ 64 →
+        (∃ kvs, (s', kvs) ∈ stores ∧
+          ((k', v) ∈ kvs ∨ ∃ v'', (k', v'') ∈ kvs ∧ v''.length = L ∧ ∃ o ∈ r.ops, o.key = []))
+        ∨ Nonempty (Collision H)) := by
+  obtain ⟨hc, _, hops, _, t, v, st, s', k', h1, h2, h3, h4, h5, h6, hver⟩ := verifyABCI_ok_inv H lc lc' store r hacc
+  refine ⟨hc, t, v, st, s', k', h1, h2, h3, h4, h5, h6, ?_⟩
+  intro stores happ hwf hnem hsl hkl
+  rw [happ] at hver
+  exact verifyValue_sound H L hL hL64 hlen r.ops hops stores s' k' v hwf hnem hsl hkl hver
+
+/-- … in particular: if no value of the application has the length of a hash, or the answer has no
+keyless operator, the returned pair IS in the named store. -/
+theorem relay_sound_abci_no_hash_values (L : Nat) (hL : 0 < L) (hL64 : L < 2 ^ 64) (hlen : ∀ x, (H x).length = L)
+    (lc lc' : LC) (store : Option Bytes) (r : ABCIResp)
+    (hacc : verifyABCI H lc store r = (.ok, lc')) :
+    ∃ t v s' k', lc.at? (r.height + 1) = some t ∧ r.value = some v ∧ keyRoundTrip r.key = some k' ∧
+      (∀ stores, t.header.appHash = appHashOf H stores → StoresWF stores → StoresNE stores →
+        s'.length < 2 ^ 64 → k'.length < 2 ^ 64 →
+        ((∀ s ∈ stores, ∀ kv ∈ s.2, kv.2.length ≠ L) ∨ (∀ o ∈ r.ops, o.key ≠ [])) →
         (∃ kvs, (s', kvs) ∈ stores ∧ (k', v) ∈ kvs) ∨ Nonempty (Collision H)) := by
-  obtain ⟨t, v, s', k', hver⟩ := verifyABCI_ok_verifyValue H lc lc' store r hacc
-  have htwo : r.ops.length = 2 := by
-    simp only [verifyValue, Bool.and_eq_true] at hver
-    obtain ⟨_, hrun⟩ := hver
-    cases hr : runOps H r.ops [s', k'] v with
-    | none => simp [hr] at hrun
-    | some p =>
-      obtain ⟨keys', out⟩ := p
-      simp only [hr, Bool.and_eq_true, decide_eq_true_eq] at hrun
-      have := runOps_keyed_length H r.ops [s', k'] v keys' out hkeyed hr
-      rw [hrun.2] at this
-      simpa using this.symm
-  exact relay_sound_abci_partial H L hL hL64 hlen lc lc' store r htwo hacc
+  obtain ⟨_, t, v, st, s', k', h1, _, h3, _, _, h6, hall⟩ := relay_sound_abci H L hL hL64 hlen lc lc' store r hacc
+  refine ⟨t, v, s', k', h1, h3, h6, ?_⟩
+  intro stores happ hwf hnem hsl hkl hex
+  rcases hall stores happ hwf hnem hsl hkl with ⟨kvs, hmem, hor⟩ | hc
+  · rcases hor with h | ⟨v'', hv'', hl, o, ho, hk⟩
+    · left; exact ⟨kvs, hmem, h⟩
+    · exfalso
+      rcases hex with h | h
+      · exact h (s', kvs) hmem (k', v'') hv'' hl
+      · exact h o ho hk
+  · right; exact hc
 
 /-- the two operators an honest application returns for pair `i` of store `j` -/
 def honestOps (stores : List (Bytes × Store)) (j i : Nat) : List ProofOp :=
@@ -920,6 +967,29 @@ def honestOps (stores : List (Bytes × Store)) (j i : Nat) : List ProofOp :=
   let kv := st.2.getD i ([], [])
   [ { typeOK := true, key := kv.1, dataOK := true, proof := proofOf H (storeLeaves H st.2) i },
     { typeOK := true, key := st.1, dataOK := true, proof := proofOf H (appLeaves H stores) j } ]
+
+/-- **Known finding (keyless operators), witness in the model.** The second case of `relay_sound_abci`
+is reachable: against a state whose store `s` holds `k ↦ (a 32-byte value)`, the answer
+`k ↦ [9]` carrying a keyless one-leaf `ValueOp` in front of the genuine two operators is relayed,
+although `(k, [9])` is not in the store. (Replayed on the real client with SHA-256, see
+known-findings.json `lightrpc.ABCIQuery.accepts-value-not-in-state.keyless-operator`.) -/
+theorem abci_keyless_operator_accepted :
+    let stores : List (Bytes × Store) := [([115], [([107], Wit.z32)])]
+    let evil : ProofOp := ProofOp.mk true [] true (Proof.mk 1 0 Wit.z32 [])
+    (verifyABCI Wit.H0 { chain := [Wit.lb, Wit.lb], stored := [1] } (some [115])
+      { code := 0, key := [107], value := some [9], height := 1, opsNil := false,
+        ops := evil :: honestOps Wit.H0 stores 0 0 }).1 = .ok ∧
+    Wit.lb.header.appHash = appHashOf Wit.H0 stores ∧
+    ¬ ∃ kvs, ([115], kvs) ∈ stores ∧ (([107] : Bytes), ([9] : Bytes)) ∈ kvs := by
+  refine ⟨by decide, ?_, ?_⟩
+  · show Wit.z32 = root Wit.H0 _
+    rw [Wit.root_H0]
+  · rintro ⟨kvs, h1, h2⟩
+    simp at h1
+    subst h1
+    simp at h2
+    revert h2
+    decide
 
 /-- **Completeness (ABCIQuery).** The value proof an honest application builds for a pair of one of
 its stores — at a height whose successor header (carrying that state's `AppHash`) the providers
@@ -1376,7 +1446,7 @@ example : (verifyBlock Wit.H0 Wit.lc0 (.height none) { blockID := Wit.badBid, bl
   decide
 
 /-- the hypotheses of `relay_complete_abci` are satisfiable (one store `s` holding `k ↦ v`), so an
-accepted proven query exists and `relay_sound_abci_partial` is not vacuous -/
+accepted proven query exists and `relay_sound_abci` is not vacuous -/
 example : ∃ lc', verifyABCI Wit.H0 { chain := [Wit.lb, Wit.lb], stored := [1] } (some [115])
     { code := 0, key := [107], value := some [118], height := 1, opsNil := false,
       ops := honestOps Wit.H0 [([115], [([107], [118])])] 0 0 } = (.ok, lc') := by
